@@ -684,6 +684,34 @@ impl Ind {
         }
         Ok(rt!(Sma, Ema, Wma, Sd, Mad, Rsi, Min, Max, FastStoch, SlowStoch, Tr, Atr, Macd, Ppo, Cci, Er, Bb, Ce, Kc, Roc, Mfi, Obv))
     }
+    /// Round trip through a second, self-describing serde format (serde_json text; `via_value`: text ->
+    /// `serde_json::Value` -> instance, i.e. the buffered path with map keys in another order, as untagged /
+    /// flattened containers and `from_value` users take). JSON has no NaN/inf (they are written as `null`), so
+    /// `Ok(None)` = "this state is not representable in the format": the text contains a `null` and does not parse.
+    #[cfg(feature = "serde")]
+    pub fn roundtrip_json(&self, via_value: bool) -> Result<Option<Ind>, String> {
+        macro_rules! rt {
+            ($($v:ident),*) => {
+                match self {
+                    $( Ind::$v(i) => {
+                        let text = serde_json::to_string(i).map_err(|e| format!("serde_json::to_string: {}", e))?;
+                        let has_null = text.contains("null");
+                        let r = if via_value {
+                            serde_json::from_str::<serde_json::Value>(&text).and_then(serde_json::from_value)
+                        } else {
+                            serde_json::from_str(&text)
+                        };
+                        match r {
+                            Ok(x) => Some(Ind::$v(x)),
+                            Err(_) if has_null => None,
+                            Err(e) => return Err(format!("serde_json round trip of {} failed: {}", text.chars().take(300).collect::<String>(), e)),
+                        }
+                    } )*
+                }
+            };
+        }
+        Ok(rt!(Sma, Ema, Wma, Sd, Mad, Rsi, Min, Max, FastStoch, SlowStoch, Tr, Atr, Macd, Ppo, Cci, Er, Bb, Ce, Kc, Roc, Mfi, Obv))
+    }
     #[cfg(feature = "serde")]
     pub fn de(k: Kind, bytes: &[u8]) -> Result<Ind, String> {
         fn d<'a, T: serde::Deserialize<'a>>(b: &'a [u8]) -> Result<T, String> {
